@@ -259,10 +259,17 @@ def run_case(ctx, n):
         # ---- follow-ups
         for k in range(rng.randint(0, 3)):
             ctx.count("followup_ops")
-            choice = rng.choice(["op2", "holder_complete", "holder_abort", "holder_kill", "watchdog", "shutdown", "op_again", "k_hold", "k_hold"])
+            choice = rng.choice(["op2", "holder_complete", "holder_abort", "holder_kill", "watchdog", "shutdown", "op_again", "k_hold", "k_hold", "holder_release_one", "holder_release_one"])
             desc["followups"].append(choice)
             b2 = snap()
             try:
+                if choice == "holder_release_one":
+                    if hctx is not None and "H" in ctl.active_operations and hctx.acquired_resources:
+                        rr = rng.choice(sorted(hctx.acquired_resources))
+                        okr = ctl.release_resource(hctx, rr)
+                        desc["followups"][-1] = "holder_release_one:%s:%s" % (rr, okr)
+                        ctx.count("manual_releases")
+                    continue
                 if choice == "k_hold" and "K" not in ctl.active_operations:
                     # a second live operation takes (possibly preempts) a resource and keeps it
                     kctx = system.start_operation("K", "agent-k", priority=9)
